@@ -127,7 +127,7 @@ def lean_term_expr(name: str, c: dict) -> str | None:
     if name == "mean_dim":
         return f"{P}mean_dim.term {r} {lints(c['dims'])} {lb(c['keep'])}"
     if name in ("amax", "amin"):
-        return f'{P}amax.term "{"ReduceMax" if name == "amax" else "ReduceMin"}" {loptl(c["dims"])} {lb(c["keep"])}'
+        return f'{P}amax.term "aten_{name}" {lints(c["dims"])} {lb(c["keep"])}'
     if name in ("all", "any"):
         return f'{P}all_.term "{"ReduceMin" if name == "all" else "ReduceMax"}" {r}'
     if name in ("all_dim", "any_dim"):
@@ -166,6 +166,23 @@ def lean_term_expr(name: str, c: dict) -> str | None:
             return f"{P}creation.{fn} {lints(c['size'])} {dt}"
         fill = {"full_like": "7", "zeros_like": "0", "ones_like": "1"}[k]
         return f'{P}creation.termLike "{fill}" {dt}'
+    if name in ("mm", "bmm", "mv", "dot", "matmul"):
+        return f"{P}matmul.term"
+    if name in ("max_dim", "min_dim"):
+        red, arg = ("ReduceMax", "ArgMax") if name == "max_dim" else ("ReduceMin", "ArgMin")
+        return f'{P}max_dim.term "{red}" "{arg}" {r} {li(c["dim"])} {lb(c["keep"])}'
+    if name == "logsumexp":
+        return f"{P}logsumexp.term {r} {lints(c['dims'])} {lb(c['keep'])}"
+    if name == "logcumsumexp":
+        return f"{P}logcumsumexp.term {r} {li(c['dim'])}"
+    if name == "embedding":
+        return f"{P}embedding.term"
+    if name in ("scatter_src", "scatter_add"):
+        return f"{P}scatter.term {lb(name == 'scatter_add')} {len(c['idx_shape'])} {len(c['src'])} {li(c['dim'])}"
+    if name == "pixel_shuffle":
+        return f"{P}pixel_shuffle.term {r} {li(c['factor'])}"
+    if name == "pixel_unshuffle":
+        return f"{P}pixel_unshuffle.term {li(c['factor'])}"
     if name == "gather":
         return f"{P}gather.term {r} {len(c['idx_shape'])} {li(c['dim'])}"
     if name == "repeat_interleave":
@@ -261,7 +278,7 @@ def regenerate() -> dict:
     names = []
     for k, ch in enumerate(chunks):
         body = ["import OV.Model.C08View", "import OV.Model.C08Slice", "import OV.Model.C08Repl", "import OV.Model.C08Reduce",
-                "import OV.Model.C08IntArith", "import OV.Model.C08Creation", "import OV.Model.C08Attr", "import OV.Model.C08Misc", "import OV.Model.C08Scalar",
+                "import OV.Model.C08IntArith", "import OV.Model.C08Creation", "import OV.Model.C08Attr", "import OV.Model.C08Misc", "import OV.Model.C08Scalar", "import OV.Model.C08Linalg",
                 "/-! GENERATED by harness/extract_torchlib.py from /repo's working tree — do not edit. -/",
                 "namespace OV.Gen.C08Trace", "",
                 f"/-- (model term, term emitted by the real torch_lib function) — chunk {k}. -/",
